@@ -70,10 +70,12 @@ Record state := mkState {
   st_pend : list pend;                      (* connections->pending_replies->items, first link first *)
   st_now : N;                               (* monotonic clock, ms *)
   st_rules : list (N * rule);               (* matchmaker: (owner, rule) *)
-  st_full : list N }.                       (* connections that do not read and whose outgoing queue AT THE BUS is over
+  st_full : list N;                         (* connections that do not read and whose outgoing queue AT THE BUS is over
                                                limits.max_outgoing_bytes (dbus_connection_get_outgoing_size > limit) *)
+  st_held : list (N * list (N * msg)) }.    (* activation->pending_activations: activatable name -> (sender, message) entries
+                                               held while the service starts, in arrival order *)
 
-Definition init : state := mkState [] 0 [] [] 0 [] [].
+Definition init : state := mkState [] 0 [] [] 0 [] [] [].
 
 Inductive event :=
 | EConnect (fds : bool)                                   (* new connection, authenticated, Hello done *)
@@ -290,15 +292,24 @@ Definition eav_out (cf : cfg) (st : state) (c r : N) (m : msg) : out :=
 
 (* ---------------------------------------------------------------- steps *)
 Definition set_pend (st : state) (pl : list pend) : state :=
-  mkState (st_conns st) (st_next st) (st_names st) pl (st_now st) (st_rules st) (st_full st).
+  mkState (st_conns st) (st_next st) (st_names st) pl (st_now st) (st_rules st) (st_full st) (st_held st).
 Definition set_names (st : state) (nm : list (N * list owner)) : state :=
-  mkState (st_conns st) (st_next st) nm (st_pend st) (st_now st) (st_rules st) (st_full st).
+  mkState (st_conns st) (st_next st) nm (st_pend st) (st_now st) (st_rules st) (st_full st) (st_held st).
 
 (* bus_dispatch, "route to named service" branch, then bus_dispatch_matches and the out: label *)
-Definition dispatch (cf : cfg) (st : state) (c : N) (m : msg) : state * out :=
-  match resolve st (m_dest m) with
-  | None => (st, [(c, OErr (if m_noauto m then ENameHasNoOwner else EServiceUnknown) (m_serial m))])
-  | Some r =>
+(* names for which a .service file is configured (test universe: t.N8 and t.N9 in every generated configuration) *)
+Definition activatable (n : N) : bool := (8 <=? n) && (n <=? 9).
+
+Fixpoint held_for (h : list (N * list (N * msg))) (n : N) : list (N * msg) :=
+  match h with [] => [] | (k, l) :: rest => if k =? n then l else held_for rest n end.
+Definition set_held (h : list (N * list (N * msg))) (n : N) (l : list (N * msg)) : list (N * list (N * msg)) :=
+  (match l with [] => [] | _ => [(n, l)] end) ++ filter (fun e => negb (fst e =? n)) h.
+Definition with_held (st : state) (h : list (N * list (N * msg))) : state :=
+  mkState (st_conns st) (st_next st) (st_names st) (st_pend st) (st_now st) (st_rules st) (st_full st) h.
+
+(* bus_dispatch_matches for the addressed recipient r (and the error reply of the caller's out: label / of
+   bus_activation_send_pending_auto_activation_messages): fd capability, gate, send, match-rule recipients *)
+Definition deliver (cf : cfg) (st : state) (c r : N) (m : msg) : state * out :=
     (* fd capability first: the gate below updates the pending-reply table, which must only happen for messages that
        are going to be delivered (order since the fix for finding F7) *)
     if (0 <? m_nfds m) && negb (conn_fds st r) then (st, [(c, OErr ENotSupported (m_serial m))])
@@ -308,19 +319,53 @@ Definition dispatch (cf : cfg) (st : state) (c : N) (m : msg) : state * out :=
     match res with
     | Some e => (st', [(c, OErr e (m_serial m))])
     | None => (st', (r, OFwd c m) :: eav_out cf st c r m)
-    end
+    end.
+
+(* bus_dispatch, service == NULL: bus_activation_activate_service for an auto-start message to a name with a service file
+   (first-pass policy check with no recipient, then the message is HELD in the pending activation), else the errors *)
+Definition no_owner (cf : cfg) (st : state) (c : N) (m : msg) : state * out :=
+  match m_dest m with
+  | DName n =>
+      if negb (m_noauto m) && activatable n then
+        (if can_send cf m false then (with_held st (set_held (st_held st) n (held_for (st_held st) n ++ [(c, m)])), [])
+         else (st, [(c, OErr EAccessDenied (m_serial m))]))
+      else (st, [(c, OErr (if m_noauto m then ENameHasNoOwner else EServiceUnknown) (m_serial m))])
+  | DUnique _ => (st, [(c, OErr (if m_noauto m then ENameHasNoOwner else EServiceUnknown) (m_serial m))])
+  end.
+
+(* bus_dispatch, "route to named service" branch, then bus_dispatch_matches and the out: label *)
+Definition dispatch (cf : cfg) (st : state) (c : N) (m : msg) : state * out :=
+  match resolve st (m_dest m) with
+  | None => no_owner cf st c m
+  | Some r => deliver cf st c r m
+  end.
+
+(* bus_activation_send_pending_auto_activation_messages: the held entries, oldest first, resume at bus_dispatch_matches
+   towards the new primary owner; an error goes back to the entry's sender only *)
+Fixpoint release_held (cf : cfg) (st : state) (l : list (N * msg)) (r : N) : state * out :=
+  match l with
+  | [] => (st, [])
+  | (c, m) :: l' => let '(st1, o1) := deliver cf st c r m in
+                    let '(st2, o2) := release_held cf st1 l' r in (st2, o1 ++ o2)
+  end.
+
+Definition release_name (cf : cfg) (st : state) (n : N) : state * out :=
+  match held_for (st_held st) n, lookup (st_names st) n with
+  | (_ :: _) as l, Some (ow :: _) => release_held cf (with_held st (set_held (st_held st) n [])) l (o_conn ow)
+  | _, _ => (st, [])
   end.
 
 Definition disconnect (cf : cfg) (st : state) (c : N) : state * out :=
   let conns := filter (fun x => negb (c_id x =? c)) (st_conns st) in
   let '(pl, o) := expire_pass cf (st_now st) (drop_pending (st_pend st) c) in
   (mkState conns (st_next st) (names_drop (st_names st) c) pl (st_now st) (filter (fun x => negb (fst x =? c)) (st_rules st))
-           (filter (fun x => negb (x =? c)) (st_full st)), o).
+           (filter (fun x => negb (x =? c)) (st_full st))
+           (map (fun e => (fst e, filter (fun x => negb (fst x =? c)) (snd e))) (st_held st)), o).
 
 Definition tick (cf : cfg) (st : state) (d : N) : state * out :=
   let now := st_now st + d in
   let '(pl, o) := expire_pass cf now (st_pend st) in
-  (mkState (st_conns st) (st_next st) (st_names st) pl now (st_rules st) (st_full st), o).
+  (mkState (st_conns st) (st_next st) (st_names st) pl now (st_rules st) (st_full st) (st_held st), o).
 
 (* an event is well-formed when its actor is connected, serials are non-zero and fds are only sent by
    connections that negotiated them; other events are not expressible on a socket and are no-ops here *)
@@ -336,6 +381,7 @@ Definition wf_event (st : state) (e : event) : bool :=
   (* modelling restriction: a connection is only stalled while it has no call open, and a stalled connection writes nothing
      (then the bus never has an error, a NoReply or a driver reply for it, which it would silently drop) *)
   | EBlock c => connected st c && negb (is_full st c) && forallb (fun p => negb (p_get p =? c)) (st_pend st)
+                && forallb (fun e => forallb (fun x => negb (fst x =? c)) (snd e)) (st_held st)
   | EDrain c => connected st c && is_full st c
   end.
 
@@ -343,23 +389,24 @@ Definition step (cf : cfg) (st : state) (e : event) : state * out :=
   if negb (wf_event st e) then (st, []) else
   match e with
   | EConnect fds =>
-      (mkState (st_conns st ++ [mkConn (st_next st) fds]) (st_next st + 1) (st_names st) (st_pend st) (st_now st) (st_rules st) (st_full st), [])
+      (mkState (st_conns st ++ [mkConn (st_next st) fds]) (st_next st + 1) (st_names st) (st_pend st) (st_now st) (st_rules st) (st_full st) (st_held st), [])
   | ESend c m => dispatch cf st c m
   | EDisconnect c => disconnect cf st c
   | ETick d => tick cf st d
   | ERequestName c s n allow replace dnq =>
       let q := match lookup (st_names st) n with Some q => q | None => [] end in
       let '(q', code) := acquire q c allow replace dnq in
-      (set_names st (set_queue (st_names st) n q'), [(c, ODrv s code)])
+      let '(st2, o) := release_name cf (set_names st (set_queue (st_names st) n q')) n in
+      (st2, o ++ [(c, ODrv s code)])           (* held messages are queued before the RequestName reply *)
   | EReleaseName c s n =>
       let '(nm, code) := release (st_names st) c n in
       (set_names st nm, [(c, ODrv s code)])
   | EAddMatch c s rl =>          (* bus_driver_handle_add_match: the rule is stored, empty method return *)
-      (mkState (st_conns st) (st_next st) (st_names st) (st_pend st) (st_now st) (st_rules st ++ [(c, rl)]) (st_full st), [(c, ODrv s 0)])
+      (mkState (st_conns st) (st_next st) (st_names st) (st_pend st) (st_now st) (st_rules st ++ [(c, rl)]) (st_full st) (st_held st), [(c, ODrv s 0)])
   | EBlock c =>
-      (mkState (st_conns st) (st_next st) (st_names st) (st_pend st) (st_now st) (st_rules st) (c :: st_full st), [])
+      (mkState (st_conns st) (st_next st) (st_names st) (st_pend st) (st_now st) (st_rules st) (c :: st_full st) (st_held st), [])
   | EDrain c =>
-      (mkState (st_conns st) (st_next st) (st_names st) (st_pend st) (st_now st) (st_rules st) (filter (fun x => negb (x =? c)) (st_full st)), [])
+      (mkState (st_conns st) (st_next st) (st_names st) (st_pend st) (st_now st) (st_rules st) (filter (fun x => negb (x =? c)) (st_full st)) (st_held st), [])
   end.
 
 (* a run: the trace lists (event, output) pairs, OLDEST LAST (head = most recent step) *)
